@@ -249,4 +249,18 @@ theorem nonread_confirm_d8_regression :
              .tx 1024 [0xC1, 0x01, 0x3c, 0x02, 0x06, 0x3c, 0x03, 0x06, 0x3c, 0x04, 0x06, 0x3c, 0x01, 0x06]] ∧
     confirmsOf res.2 = [(1024, 0xC0)] := by decide
 
+/-- the sequence number `n` requests / accepted series fragments after `s` -/
+def seqAfter : Nat → Nat → Nat
+  | 0, s => s
+  | n+1, s => seq4Next (seqAfter n s)
+
+/-- Arithmetic core of the monitor `request_seq_fresh` (S176): the association's counter is advanced by `seq4Next`
+once per request (`sendRequest`) and once per accepted non-final fragment of a read series (`stepFragment`,
+`.waitRead … .accept`), so a request issued after fewer than 16 such steps never carries a sequence number
+that one of them used: a late fragment of an abandoned series cannot match it. -/
+theorem request_seq_fresh_within_window :
+    ∀ s, s < 16 → ∀ n, n < 16 → 0 < n → seqAfter n s ≠ s := by decide
+
+example : seqAfter 3 14 = 1 := by decide
+
 end Dnp3.Props.C15
